@@ -5,7 +5,9 @@ CONSTANTS
   FixLastCommitNil = FALSE
   FixPartIndexNeg = FALSE
   FixTotalNeg = FALSE
+  FixTotalMax = FALSE
   FixRecoverAuth = FALSE
+  FixBlockComponents = FALSE
 INVARIANTS TypeOK AlwaysRunning BoundedCatchup
 PROPERTIES InvalidIsStutter DirectOnlyNil
 VIEW View
